@@ -6,9 +6,11 @@ set -e
 FL=${1:-hooks}
 REPO=${VERIF_REPO:-/repo}
 ROOT=$(cd "$(dirname "$0")/.." && pwd)
-B=$ROOT/.build/$FL
+SUF=""
+if [ "$REPO" != /repo ]; then SUF="-$(echo -n "$REPO" | md5sum | cut -c1-8)"; fi
+B=$ROOT/.build/$FL$SUF
 mkdir -p "$ROOT/.build"
-exec 9>"$ROOT/.build/.lock.$FL"
+exec 9>"$ROOT/.build/.lock.$FL$SUF"
 flock 9
 case $FL in
   hooks) FLAGS="-Wno-error -DCPPCMS_VERIF";;
